@@ -262,6 +262,12 @@ def run_generated(dag, method, plan, functions=None):
     cg = PythonCodeGenerator(class_name="Method")
     cls = cg.get_class(dag)
     obj = cls(fm)
+    # a second stepper of the same generated class, made afterwards with functions of its own that must never be
+    # called by the first: instances of one class do not share what they were constructed with
+    def _decoy(*a, **k):
+        raise AssertionError("a function given to another stepper instance was called")
+    decoy = cls({n: _decoy for n in fm})
+    decoy.set_up(t_start=method["t0"], dt_start=method["dt0"], context=initial_context(method))
     obj.set_up(t_start=method["t0"], dt_start=method["dt0"], context=initial_context(method))
     nm = cg._name_manager
     pnames = sorted(persistent_names(method))
